@@ -39,7 +39,8 @@ echo "fuzz target=$T seconds=$SECS executions=${execs:-?} $cov corpus=$ncorp cra
 python3 - "$ID" "$T" "${execs:-0}" "$ncorp" "$ncrash" "$ntimeout" "$SECS" <<'PY'
 import json,sys
 ID,T,execs,ncorp,ncrash,nto,secs=sys.argv[1:]
-p=f"/verif/evidence/{ID}.json"
+import os
+p=f"/verif/evidence{'.scratch' if os.environ.get('VERIF_SCRATCH') else ''}/{ID}.json"
 try:
     e=json.load(open(p))
     e["coverage"]["fuzz_campaign"]={"engine":"libFuzzer via cargo-fuzz","target":T,"seconds":int(secs),"executions":int(execs or 0),"corpus_files":int(ncorp),"crash_artifacts":int(ncrash),"timeout_or_oom_artifacts":int(nto),"note":"executions are additional to 'evaluations'; crashes are re-judged by the harness oracle before being reported"}
@@ -50,8 +51,8 @@ PY
 rc=0
 for a in "$A"/crash-*; do
   [ -f "$a" ] || continue
-  mkdir -p /verif/replays/$ID
-  R=/verif/replays/$ID/fuzz-$(basename "$a" | cut -c7-18).json
+  RD=/verif/replays${VERIF_SCRATCH:+.scratch}/$ID; mkdir -p $RD
+  R=$RD/fuzz-$(basename "$a" | cut -c7-18).json
   $V fuzz-case $T "$a" > "$R"
   if grep -q '^null' "$R"; then rm -f "$R"; continue; fi
   out=$($V check $ID --replay "$R" 2>&1); r=$?
